@@ -96,3 +96,60 @@ func checkDaemonsAgree(r *verifsim.Run) {
 	}
 	r.Probe("static-daemon-agreement-checked")
 }
+
+// checkCleanupWired: runMain is not executed by the simulation (unix listener, periph host
+// init, D-Bus); the harness re-enacts its sequence "deleteTempFiles(conf.OutputDir), then one
+// handleConn per connection". This static check keeps the re-enactment honest: runMain must
+// still call deleteTempFiles(conf.OutputDir) before its accept loop.
+var cleanupWired struct {
+	done bool
+	msg  string
+}
+
+func checkCleanupWired(r *verifsim.Run) {
+	if !cleanupWired.done {
+		cleanupWired.done = true
+		fset := token.NewFileSet()
+		f, err := parser.ParseFile(fset, filepath.Join(repoRoot(), "cmd/thermal-recorder/main.go"), nil, 0)
+		if err != nil {
+			cleanupWired.msg = "cannot parse cmd/thermal-recorder/main.go: " + err.Error()
+		} else {
+			found, loopPos, callPos := false, token.NoPos, token.NoPos
+			for _, d := range f.Decls {
+				fd, ok := d.(*ast.FuncDecl)
+				if !ok || fd.Name.Name != "runMain" || fd.Body == nil {
+					continue
+				}
+				for _, st := range fd.Body.List {
+					if fs, ok := st.(*ast.ForStmt); ok && loopPos == token.NoPos {
+						loopPos = fs.Pos()
+					}
+					ast.Inspect(st, func(n ast.Node) bool {
+						if c, ok := n.(*ast.CallExpr); ok {
+							if id, ok := c.Fun.(*ast.Ident); ok && id.Name == "deleteTempFiles" && len(c.Args) == 1 {
+								if se, ok := c.Args[0].(*ast.SelectorExpr); ok && se.Sel.Name == "OutputDir" {
+									found = true
+									if callPos == token.NoPos {
+										callPos = c.Pos()
+									}
+								}
+							}
+						}
+						return true
+					})
+				}
+			}
+			switch {
+			case !found:
+				cleanupWired.msg = "runMain no longer calls deleteTempFiles(conf.OutputDir): no start-up clean-up happens"
+			case loopPos != token.NoPos && callPos > loopPos:
+				cleanupWired.msg = "runMain calls deleteTempFiles only inside/after its accept loop"
+			}
+		}
+	}
+	if cleanupWired.msg != "" {
+		r.Violate("C10", "C10.cleanup-not-wired", "static", "%s (static check of cmd/thermal-recorder/main.go)", cleanupWired.msg)
+	} else {
+		r.Probe("static-startup-cleanup-wired")
+	}
+}
